@@ -10,6 +10,8 @@
        user-metadata checks of the single-signature model        (verifier/verifier.go)
    Every signature is produced and judged by the pipeline of C07_Model (same
    [sign], same [verify_oci]); this file adds what happens BETWEEN signatures.
+   Also here: ONE signature (OCI or blob) verified at a given time ([verify_at],
+   [model_at]): the expiry check placed into the single-signature pipeline.
    Not modelled: the repository (which signatures it lists, in which order, is
    the input [mi_order]; it lists them in one page, as registry.Repository does
    over an OCI layout or a memory store), the clock ([mi_vnow]).
